@@ -369,6 +369,45 @@ pub fn run(ctx: &'static Ctx) -> (&'static str, Value, Vec<&'static str>) {
         .reduce(Stats::new, Stats::merge);
     // VCP cut counts and clutter counts
     let mut sd = Stats::new();
+    // many pointers aliasing one (or two) large moment blocks that are fully present: peak memory
+    // must stay linear in the input, not pointers x block size
+    for &np in &[16usize, 255, 1024, 4096] {
+        for &(g, ws) in &[(1840u16, 8u8), (65535, 8), (65535, 16)] {
+            for two in [false, true] {
+                if !thorough && np == 4096 && ws == 16 {
+                    continue;
+                }
+                let exact = 32 + 4 * np as u32;
+                let dl = g as usize * (ws as usize / 8);
+                let mut ptrs = vec![exact; np];
+                let second = exact + 28 + dl as u32;
+                if two {
+                    for (i, p) in ptrs.iter_mut().enumerate() {
+                        if i % 2 == 1 {
+                            *p = second;
+                        }
+                    }
+                }
+                let mut body = t31_extreme(np as u16, &ptrs, b"REF", g, ws, dl);
+                if two {
+                    let mut blk = W::new();
+                    blk.u8(b'D').bytes(b"VEL").u32(0).u16(g).u16(2125).u16(250).u16(50).u16(16).u8(0).u8(ws).f32(2.0).f32(66.0);
+                    body.extend_from_slice(&blk.0);
+                    body.extend(std::iter::repeat(9u8).take(dl));
+                }
+                begin_case(CaseId { a: 9, b: np as u64, c: g as u64 });
+                let o = call(ctx, 3, 0, &body, "many pointers aliasing a large block", &mut sd);
+                sd.outcome(o);
+                let mut msg = MsgHeader::simple(31, 19000, 0).encode();
+                msg.extend_from_slice(&body);
+                let o = call(ctx, 0, 0, &msg, "many pointers aliasing a large block (stream)", &mut sd);
+                sd.outcome(o);
+                end_case();
+                sd.nontrivial(format!("alias{np}/{g}/{ws}/{two}").as_bytes());
+                sd.count("aliasing_cases", 1);
+            }
+        }
+    }
     for cuts in [0u16, 1, 51, 52, 53, 255, 256, 65535] {
         for present in [0usize, 1, 51, 60] {
             let cutv: Vec<VcpCut> = (0..present).map(|i| VcpCut::new(0x58, 0, 1, 1, i as u16)).collect();
@@ -456,7 +495,7 @@ pub fn run(ctx: &'static Ctx) -> (&'static str, Value, Vec<&'static str>) {
     stats.sample(3, || json!({"entry": "decode_digital_radar_data", "origin": "field extremes", "bytes_hex": hex(&ext[ext.len() / 2][..64.min(ext[ext.len() / 2].len())])}));
     stats.sample(3, || json!({"entry": "decode_messages", "origin": "prefix", "stream": ["t31_basic", "status"], "cut": 1234}));
     let cov = stats.coverage(
-        "(a) every prefix (quick: every 3rd inside long streams) of all valid streams of length <=2 over the C03 alphabet (thorough + a quarter of length 3), through decode_messages, decode_message_contents and the body decoder; (b) every single-byte mutation position x 8 values of 9 small streams and every pair of mutations on structural bytes (type code, block count, pointers, block names, gates, word size) i.e. all executions with <=2 deviations; (c) product of field extremes for type-31 (block count x pointer values x 15 names x gates x word sizes), VCP cut counts, clutter segment/zone counts; (d) all byte strings of length <=2 x all 256 type codes and all strings of length 3..=6 (thorough ..=8) over {00,01,1F,FF,R,V,O,L} at every entry point. Each call: no panic, reader fuel 64+8*len not exhausted, allocator peak <= 4 MiB + 64*len; radial()/into_radial() on every type-31 message that decoded",
+        "(a) every prefix (quick: every 3rd inside long streams) of all valid streams of length <=2 over the C03 alphabet (thorough + a quarter of length 3), through decode_messages, decode_message_contents and the body decoder; (b) every single-byte mutation position x 8 values of 9 small streams and every pair of mutations on structural bytes (type code, block count, pointers, block names, gates, word size) i.e. all executions with <=2 deviations; (c) product of field extremes for type-31 (block count x pointer values x 15 names x gates x word sizes), VCP cut counts, clutter segment/zone counts, and 16..4096 pointers aliasing one or two fully present large moment blocks (memory must stay linear); (d) all byte strings of length <=2 x all 256 type codes and all strings of length 3..=6 (thorough ..=8) over {00,01,1F,FF,R,V,O,L} at every entry point. Each call: no panic, reader fuel 64+8*len not exhausted, allocator peak <= 4 MiB + 64*len; radial()/into_radial() on every type-31 message that decoded",
         true,
         json!({"deviation_bound": 2, "alphabet": alpha, "max_len": maxlen, "not_covered": "uniformly random bytes (sampling); strings differing from a valid stream in >=3 unrelated places"}),
     );
